@@ -92,7 +92,8 @@ MENU = {
                     for a in ("x", " ", "1 x 2", "1e999", "nan", "1em", "-", "1 2 3 4 5 6 7 8")],
     "color": ["rgb(1.5,2,3)", "rgb(1,2)", "#12", "#ggg", "hsl(x,1%,1%)", "", "url(#nope)", "notacolor", "rgb(300,-5,2)",
               "#1234567", "hsl(10,20,30)", "rgb(1e999%,2%,3%)", "rgba(1,2,3,1e999)", "hsl(1e999,1e999%,-1e999%)",
-              "rgb(99999999999999999999,1,1)", "rgb(nan,1,1)", "rgb(1,2,3,)", "rgb(,,)", "hsl()", "#", "url(", "currentColor x"],
+              "rgb(99999999999999999999,1,1)", "rgb(nan,1,1)", "rgb(1e999,0,0)", "rgb(-1e400,1,1)", "rgb(1.5e3,2,3)", "rgba(1E+309,1,1,1)",
+              "hsl(1e999deg,1%,1%)", "hsla(1,2%,3%,1e999)", "rgb(1,2,3,)", "rgb(,,)", "hsl()", "#", "url(", "currentColor x"],
     "length": ["abc", "", "-5", "1e999", "5 5", "nan", "1e-400", "%", "10%%", "1em", "inf", "0x10", "1e", "+", "--1", "1pxpx", "."],
     "points": ["1", "1,2 3", "a,b", "", "1,2,3", "1e999,2 3,4", "1 2 3 4 5"],
     "viewbox": ["0 0 0 0", "a b", "0 0 10", "0 0 -5 5", "", "0,0,1e999,5", "1 2 3 4 5"],
